@@ -21,6 +21,7 @@ template<class S,class Tg> void c04_between(hx::Rec<S>& R){ COMMON
 // X (-) Y = log(Y^-1 X): characterised by  M(Y) M(exp(X.rminus(Y))) = M(X)  with X = Y*Z, Z symbolic (so X is arbitrary)
 template<class S,class Tg> void c04_rminus(hx::Rec<S>& R){ COMMON
   G Y=Tg::make(R,"b",1), Z=Tg::make(R,"z",0); G X=hcompose<Tg,S>(Y,Z);
+  assume_not_half_turn<Tg>(R,Z);
   T t=X.rminus(Y);
   assume_rot_below_pi<Tg>(R,t);
   hx::eqm(R,"M", (Tg::template M<S>(Y)*Tg::template M<S>(t.exp())).eval(), Tg::template M<S>(X));
@@ -28,6 +29,7 @@ template<class S,class Tg> void c04_rminus(hx::Rec<S>& R){ COMMON
 }
 template<class S,class Tg> void c04_lminus(hx::Rec<S>& R){ COMMON
   G Y=Tg::make(R,"b",1), Z=Tg::make(R,"z",0); G X=hcompose<Tg,S>(Z,Y);
+  assume_not_half_turn<Tg>(R,Z);
   T t=X.lminus(Y);
   assume_rot_below_pi<Tg>(R,t);
   hx::eqm(R,"M", (Tg::template M<S>(t.exp())*Tg::template M<S>(Y)).eval(), Tg::template M<S>(X));
@@ -66,8 +68,16 @@ template<class S,class Tg> void c04_alias_minus(hx::Rec<S>& R){ COMMON
   hx::eqm(R,"op-", (X-Y).coeffs(), rm.coeffs());
   hx::eqm(R,"f.rminus", manif::rminus(X,Y,B1,B2).coeffs(), rm.coeffs()); hx::eqm(R,"f.rminus.J1",B1,A1); hx::eqm(R,"f.rminus.J2",B2,A2);
   hx::eqm(R,"f.minus", manif::minus(X,Y,B1,B2).coeffs(), rm.coeffs()); hx::eqm(R,"f.minus.J1",B1,A1); hx::eqm(R,"f.minus.J2",B2,A2);
+}
+template<class S,class Tg> void c04_alias_lminus(hx::Rec<S>& R){ COMMON
+  G X=Tg::make(R,"a",0), Y=Tg::make(R,"b",1);
+  Jac A1,A2,B1,B2;
   T lm=X.lminus(Y,A1,A2);
   hx::eqm(R,"f.lminus", manif::lminus(X,Y,B1,B2).coeffs(), lm.coeffs()); hx::eqm(R,"f.lminus.J1",B1,A1); hx::eqm(R,"f.lminus.J2",B2,A2);
+}
+template<class S,class Tg> void c04_alias_log(hx::Rec<S>& R){ COMMON
+  G X=Tg::make(R,"a",0);
+  Jac A1,B1;
   T lg=X.log(A1);
   hx::eqm(R,"lift", X.lift(B1).coeffs(), lg.coeffs()); hx::eqm(R,"lift.J",B1,A1);
   hx::eqm(R,"f.log", manif::log(X,B1).coeffs(), lg.coeffs()); hx::eqm(R,"f.log.J",B1,A1);
@@ -84,5 +94,7 @@ ENTRY_T(c04_rminus, TAG)
 ENTRY_T(c04_lminus, TAG)
 ENTRY_T(c04_alias_group, TAG)
 ENTRY_T(c04_alias_minus, TAG)
+ENTRY_T(c04_alias_lminus, TAG)
+ENTRY_T(c04_alias_log, TAG)
 ENTRY_T(c04_alias_tangent, TAG)
 HX_MAIN
